@@ -196,26 +196,6 @@ pub open spec fn hunk_start_lines<'a>(h: TextHunk<'a>, hd: HeaderSpec) -> bool {
     &&& h.add.target_line as int == start_line_spec(hd.add_line as int, hd.add_count as int)
 }
 
-// ---------------------------------------------------------------------------------------------- C01 L4: kind inference
-
-/// A file patch creates (deletes) a file only if it consists of a single hunk without context whose old (new) side
-/// is empty, whose other side is not, and whose empty side is at line 0 ("-0,0" / "+0,0"); everything else modifies.
-pub open spec fn kind_spec<'a>(hunks: Seq<TextHunk<'a>>) -> FilePatchKind {
-    if hunks.len() == 1 && hunks[0].prefix_context == 0 && hunks[0].suffix_context == 0 {
-        let h = hunks[0];
-        let n_old = h.remove.content@.len();
-        let n_new = h.add.content@.len();
-        if n_new == 0 && n_old > 0 && h.add.target_line == 0 {
-            FilePatchKind::Delete
-        } else if n_old == 0 && n_new > 0 && h.remove.target_line == 0 {
-            FilePatchKind::Create
-        } else {
-            FilePatchKind::Modify
-        }
-    } else {
-        FilePatchKind::Modify
-    }
-}
 
 // ---------------------------------------------------------------------------------------------- C01 L3: hunk body
 // Declarative description of what a hunk body means, relative to the (stubbed) line parser.
